@@ -1,6 +1,7 @@
 """C06 — text (and close reasons) accepted exactly when the whole payload is well-formed UTF-8."""
 import bvsym as sx
 from bvsym import core, utf8ref
+from .envpatch import EnvPatch
 from .common import FakeSock, Obligation, cover, new_ws, quiet_logging, server_frame
 
 PROPERTY = "C06"
@@ -197,8 +198,8 @@ def u_reconnect(n, lost):
     else:  # inside a frame: header announces 5 bytes, 2 arrive
         first = bytes([0x81, 5]) + stale
     data = sx.sym_bytes("d", n)
-    real_os = HS.os._real if isinstance(HS.os, FakeOs) else HS.os
-    HS.os = FakeOs(real_os, lambda k: bytes(range(k)))
+    ep = EnvPatch()
+    ep.urandom(lambda k: bytes(range(k)))
     try:
         ws = new_ws(None)
         ws.connect("ws://example.test/a", socket=HandshakeSock(first, []))
@@ -220,7 +221,7 @@ def u_reconnect(n, lost):
             sx.require(False, "receive on the re-connected object raised %s" % type(e).__name__, lost=lost)
             return
     finally:
-        HS.os = real_os
+        ep.restore()
     sx.require(sx.Iff(ok, sx.utf8_valid(data)), "after connect() on the same object a text message is accepted exactly when ITS payload is "
                "well-formed (nothing of the interrupted message lingers)", n=n, lost=lost)
     if ok:
